@@ -541,15 +541,16 @@ class AbsoluteDuration(Duration):
         if not isinstance(years, int) or not isinstance(months, int):
             raise ValueError("Float year and months are not supported")
 
-        self = timedelta.__new__(
-            cls, days, seconds, microseconds, milliseconds, minutes, hours, weeks
-        )
-
         # We need to compute the total_seconds() value
         # on a native timedelta object
         delta = timedelta(
             days, seconds, microseconds, milliseconds, minutes, hours, weeks
         )
+
+        # The value itself is the absolute one: as a timedelta it compares,
+        # hashes and adds like its own length
+        length = abs(delta)
+        self = timedelta.__new__(cls, length.days, length.seconds, length.microseconds)
 
         # Intuitive normalization
         self._total = delta.total_seconds()
